@@ -107,6 +107,11 @@ func (v *varValidator) validateVarType(typ *ast.Type, val reflect.Value) (reflec
 			slc = reflect.Append(slc, val)
 			val = slc
 		}
+		// When the items are lists themselves, an item that is a single value is coerced
+		// to a list too; the coerced items then replace the originals.
+		elemIsList := typ.Elem.Elem != nil
+		coerced := make([]interface{}, 0, val.Len())
+		changed := false
 		for i := 0; i < val.Len(); i++ {
 			resetPath()
 			v.path = append(v.path, ast.PathIndex(i))
@@ -117,10 +122,22 @@ func (v *varValidator) validateVarType(typ *ast.Type, val reflect.Value) (reflec
 				}
 				field = field.Elem()
 			}
-			_, err := v.validateVarType(typ.Elem, field)
+			if !field.IsValid() && !typ.Elem.NonNull {
+				// a null item of a nullable item type
+				coerced = append(coerced, nil)
+				continue
+			}
+			cval, err := v.validateVarType(typ.Elem, field)
 			if err != nil {
 				return val, err
 			}
+			if elemIsList && cval.IsValid() {
+				changed = changed || field.Kind() != reflect.Slice || cval.Pointer() != field.Pointer()
+				coerced = append(coerced, cval.Interface())
+			}
+		}
+		if elemIsList && changed {
+			return reflect.ValueOf(coerced), nil
 		}
 		return val, nil
 	}
